@@ -17,7 +17,7 @@ pub struct C15;
 pub const CHECK: C15 = C15;
 pub fn plan(t: Tier) -> vcore::Plan {
     // tape shrinking is cheap to skip here: the structural shrinker (`simplify_at`) does the minimisation
-    let mut p = vcore::Plan::new(t.pick(4_000, 80_000), 1600);
+    let mut p = vcore::Plan::new(t.pick(4_000, 400_000), 1600);
     p.max_shrink_iters = 40;
     p
 }
@@ -34,8 +34,8 @@ pub const SHAPE_CLASSES: [&str; 9] = [
     "tabs",
     "trailing-ws",
 ];
-/// kinds of planted local errors; the last three are classified apart because their reported location has a
-/// cause of its own (see `rule()`)
+/// kinds of planted local errors; the last three are classified apart because their reported location has (had) a
+/// cause of its own: outer-stmt is an open finding behind the avoid switch, syntax-eof was fixed in 5895c94, unary-minus in 25e04d4
 pub const KINDS: [&str; 12] = [
     "syntax",
     "unresolved",
@@ -722,10 +722,10 @@ impl Check for C15 {
         // kinds behind the avoid switch are generated in 20 % of the budget only
         let forced = std::env::var("C15_AVOID").ok();
         for k in KINDS.iter() {
-            if forced.as_deref() == Some("1") && (*k == "outer-stmt" || *k == "syntax-eof") {
+            if forced.as_deref() == Some("1") && *k == "outer-stmt" {
                 continue;
             }
-            let need = if *k == "outer-stmt" || *k == "syntax-eof" {
+            let need = if *k == "outer-stmt" {
                 3
             } else if *k == "unary-minus" {
                 s.evaluations / 300
